@@ -1,7 +1,12 @@
+#[cfg(not(jxl_oxide_verif_shuttle))]
 use std::{
     collections::HashMap,
     sync::{Arc, Condvar, Mutex, MutexGuard},
 };
+#[cfg(jxl_oxide_verif_shuttle)]
+use shuttle::sync::{Condvar, Mutex, MutexGuard};
+#[cfg(jxl_oxide_verif_shuttle)]
+use std::{collections::HashMap, sync::Arc};
 
 use jxl_frame::data::{HfGlobal, LfGlobal, LfGroup};
 use jxl_modular::{ChannelShift, Sample};
@@ -128,7 +133,12 @@ impl<S: Sample> FrameRenderHandle<S> {
         let render = if let Some(state) = self.start_render()? {
             let _guard = tracing::trace_span!("Run with image", index = self.frame.idx).entered();
 
+            #[cfg(jxl_oxide_verif)]
+            let _probe =
+                crate::verif::probe_scope(self.frame.idx, crate::verif::ProbeKind::Render);
             let render_result = (self.render_op)(state, self.image_region);
+            #[cfg(jxl_oxide_verif)]
+            drop(_probe);
             match render_result {
                 FrameRender::InProgress(_) => {
                     drop(self.done_render(render_result));
@@ -153,7 +163,12 @@ impl<S: Sample> FrameRenderHandle<S> {
         if let Some(state) = self.start_render_silent() {
             let _guard = tracing::trace_span!("Run", index = self.frame.idx).entered();
 
+            #[cfg(jxl_oxide_verif)]
+            let _probe =
+                crate::verif::probe_scope(self.frame.idx, crate::verif::ProbeKind::Render);
             let render_result = (self.render_op)(state, image_region);
+            #[cfg(jxl_oxide_verif)]
+            drop(_probe);
             drop(self.done_render(render_result));
         }
     }
